@@ -35,11 +35,13 @@ def tb_not_last(prio):
     return any(p in (0, 1) for p in prio[:-1])
 
 
-def gen_case(rng, cid, dev2_ok, scratch, small=False):
+def gen_case(rng, cid, dev2_ok, scratch, small=False, large=False):
     nroots = 1 + rng.below(3)
     roots = ["r%d" % i for i in range(nroots)]
     glen = 1 + rng.below(8)
     k = 2 + rng.below(3 if small else 11)
+    if large:
+        k = 24 + rng.below(17)      # more than 20 sub-groups: beyond the insertion-sort range of the sort routines
     inodes, members = [], []
     file_inodes = []
 
@@ -57,7 +59,7 @@ def gen_case(rng, cid, dev2_ok, scratch, small=False):
                 "gap_ms": 15 if rng.chance(1, 3) else 0, "gap2_ms": 15 if rng.chance(1, 4) else 0}
 
     for j in range(k):
-        x = rng.below(100)
+        x = rng.below(100) if not large else 50 + rng.below(50)     # large groups: distinct regular files (many sub-groups)
         p = new_path(j)
         if x < 22 and file_inodes:
             members.append({"path": p, "ino": rng.choice(file_inodes), "kind": "link"})
@@ -114,6 +116,10 @@ def gen_case(rng, cid, dev2_ok, scratch, small=False):
             "mbefore": None if rng.chance(4, 10) else 500,
             "prio": prio, "iso": iso, "inodes": inodes, "members": members}
     case.update(pats)
+    if large:
+        # the point of the large groups is the sort itself: many sub-groups, heavy ties, nothing that bails out
+        case.update(mbefore=None, iso=[], mlinks=False, n=rng.choice([1, 2, 3]), kp=[], dp=[],
+                    prio=[rng.choice([2, 3, 4, 5, 6, 7, 8, 9, 10, 11]) for _ in range(1 + rng.below(2))])
     return case
 
 
@@ -360,7 +366,7 @@ def examine(ctx, cases, results, model_out, scratch, count=True):
             ctx.count()
             nontriv = pres["kind"] == "ok" and len(pres["D"]) > 0
             ctx.distinct(json.dumps({k: v for k, v in case.items() if k != "id"}, sort_keys=True), nontriv)
-            ctx.bump("members", len(case["members"]))
+            ctx.bump("members", len(case["members"]) if len(case["members"]) <= 12 else "24-40")
             ctx.bump("op", case["op"])
             ctx.bump("n", case["n"])
             ctx.bump("priority_list_len", len(case["prio"]))
@@ -557,146 +563,162 @@ def comps_hex(p):
     return "/".join(["2f"] + [c.encode().hex() for c in p.strip("/").split("/")])
 
 
+def gen_cli(rng):
+    """a tree of 1-3 classes of equal files over 2-3 roots (hard links included) + the `group` options"""
+    roots = ["r0", "r1"] + (["r2"] if rng.chance(1, 3) else [])
+    files = []
+    for c in range(1 + rng.below(3)):
+        content = ("class%d-" % c) * (2 + c)
+        firsts = []
+        for k in range(2 + rng.below(4)):
+            r = rng.choice(roots)
+            rel = os.path.join(r, rng.choice(["", "d"]), "f%d_%d%s" % (c, k, rng.choice([".a", ".b"])))
+            f = {"rel": rel, "content": content, "link_of": None, "mtime": 1_600_000_000 + rng.below(4) * 100}
+            if firsts and rng.chance(1, 4):
+                f["link_of"] = rng.choice(firsts)
+            else:
+                firsts.append(len(files))
+            files.append(f)
+    isolate = rng.chance(1, 2)
+    mode = rng.below(5)             # 0: default rf-over, 1/2: --rf-over k, 3: --unique, 4: --rf-under
+    prio = [rng.choice([4, 5, 10, 11, 1, 0])] if rng.chance(1, 2) else []
+    if prio and rng.chance(1, 2):
+        prio.append(rng.choice([4, 5, 10, 11]))
+        if tb_not_last(prio):
+            prio = prio[1:]
+    return {"roots": roots, "files": files, "isolate": isolate, "hlinks": rng.chance(1, 2), "transform": rng.chance(1, 4),
+            "mode": mode, "prio": prio}
+
+
+def run_cli(ctx, spec, model_bin, fclones, tree, count=True):
+    """-> None or (kind, record, text)"""
+    shutil.rmtree(tree, ignore_errors=True)
+    roots = spec["roots"]
+    for r in roots:
+        os.makedirs(os.path.join(tree, r, "d"))
+    for f in spec["files"]:
+        p = os.path.join(tree, f["rel"])
+        if f["link_of"] is not None:
+            os.link(os.path.join(tree, spec["files"][f["link_of"]]["rel"]), p)
+        else:
+            with open(p, "w") as fh:
+                fh.write(f["content"])
+            os.utime(p, (f["mtime"] + 5, f["mtime"]))
+    with open(os.path.join(tree, roots[0], "uniq"), "w") as fh:
+        fh.write("only one copy")
+    isolate, hlinks, transform, mode, prio = spec["isolate"], spec["hlinks"], spec["transform"], spec["mode"], spec["prio"]
+    gopts = []
+    if isolate:
+        gopts.append("--isolate")
+    if hlinks:
+        gopts.append("-H")
+    if transform:
+        gopts += ["--transform", "head -c 7"]
+    rfo = None
+    if mode in (1, 2):
+        rfo = mode if not isolate else 1
+        gopts += ["--rf-over", str(rfo)]
+    elif mode == 3:
+        gopts.append("--unique")
+    elif mode == 4:
+        gopts += ["--rf-under", "2" if isolate else "3"]
+    popts = []
+    for p in prio:
+        popts += ["--priority", PRIO_NAMES[p]]
+    env = dict(os.environ, RAYON_NUM_THREADS="2")
+    g = sh([fclones, "group"] + gopts + roots, tree, env=env)
+    if g.returncode != 0:
+        raise RuntimeError("fclones group failed: " + g.stderr[-500:])
+    report_h = g.stdout
+    lines = report_h.split("\n")
+    ci = [i for i, l in enumerate(lines) if l.startswith("# Command:")][0]
+    plain = list(lines)
+    plain[ci] = "# Command: fclones group " + " ".join(roots)      # a `group` command without the options
+    report_0 = "\n".join(plain)
+    a = sh([fclones, "remove", "--dry-run"] + popts, tree, stdin=report_h, env=env)
+    n_inh = 0 if mode in (3, 4) else (rfo if rfo is not None else 1)
+    xopts = ["-n", str(max(1, n_inh))]
+    if isolate:
+        for r in roots:
+            xopts += ["--isolate", os.path.join(tree, r)]
+    if hlinks:
+        xopts.append("-H")
+    if transform:
+        xopts.append("--no-check-size")
+    ts_line = [l for l in lines if l.startswith("# Timestamp:")][0][len("# Timestamp: "):]
+    b = sh([fclones, "remove", "--dry-run"] + popts + xopts, tree, stdin=report_0, env=env)
+
+    def rms(p):
+        if p.returncode != 0:
+            return "exit %d: %s" % (p.returncode, p.stderr[-300:])
+        return sorted(l[3:] for l in p.stdout.split("\n") if l.startswith("rm "))
+    ra, rb = rms(a), rms(b)
+    # model: partition (merge h c) and partition (explicit h c) group by group
+    groups, cur = [], None
+    for l in lines:
+        if l.startswith("#") or not l.strip():
+            continue
+        if not l.startswith("    "):
+            glen = int(l.split(",")[1].strip().split(" ")[0])
+            unit = l.split(",")[1].strip().split(" ")[1]
+            cur = {"glen": glen, "files": []}
+            assert unit == "B"
+            groups.append(cur)
+        else:
+            cur["files"].append(l[4:])
+    import datetime
+    ts = datetime.datetime.strptime(ts_line, "%Y-%m-%d %H:%M:%S.%f %z")
+    ts_ns = int(ts.timestamp() * 1000 + 0.5) * 10 ** 6
+    mlines = []
+    for gr in groups:
+        mem = []
+        for f in gr["files"]:
+            st = os.stat(f)
+            mem.append(" %s %d %d %d %d %d %d - %d,%d - - - - 1" % (
+                comps_hex(f), st.st_dev, st.st_ino, st.st_size, 1, st.st_mtime_ns, st.st_atime_ns,
+                st.st_ctime_ns // 10 ** 9, st.st_ctime_ns % 10 ** 9))
+        hf = "%d %d %s %d %d %d %s %d" % (transform, hlinks, rfo if rfo is not None else "-", mode == 4, mode == 3,
+                                         isolate, ",".join(comps_hex(os.path.join(tree, r)) for r in roots), ts_ns)
+        cfg = "rm - 0 0 - %s %d - 0,0,0,0" % (",".join(str(p) for p in prio) or "-", gr["glen"])
+        mlines.append("M " + hf + " # " + cfg + " |" + " ;".join(mem))
+    mout = core.run_lines(model_bin, mlines) if mlines else []
+    m_merge, m_expl = [], []
+    for gr, o in zip(groups, mout):
+        if o.startswith("EXN"):
+            raise RuntimeError("model: " + o)
+        pm, pe = o.split(" ## ")
+        for tgt, p in ((m_merge, pm), (m_expl, pe)):
+            if p.startswith("ok"):
+                d = p.split("D=")[1]
+                if d != "-":
+                    tgt.extend(gr["files"][int(i)] for i in d.split(","))
+    m_merge.sort()
+    m_expl.sort()
+    if count:
+        ctx.count()
+        ctx.distinct(("cli", json.dumps(spec, sort_keys=True)), isinstance(ra, list) and len(ra) > 0)
+        ctx.bump("cli_group_options", " ".join(gopts) or "(none)")
+        ctx.bump("cli_removed_files", len(ra) if isinstance(ra, list) else -1)
+    rel = lambda l: [x.replace(tree + "/", "") for x in l] if isinstance(l, list) else l
+    rec = {"cli_spec": spec, "group_cmd": ["fclones", "group"] + gopts + roots, "priority": [PRIO_NAMES[p] for p in prio],
+           "inherit_removed": rel(ra), "explicit_opts": [x.replace(tree + "/", "<tree>/") for x in xopts], "explicit_removed": rel(rb),
+           "model_merge_removed": rel(m_merge), "model_explicit_removed": rel(m_expl), "report": report_h[:3000].replace(tree, "<tree>")}
+    shutil.rmtree(tree, ignore_errors=True)
+    if ra != rb:
+        return ("inherit_mismatch", rec, "`remove` with the options only in the report header drops %s, "
+                "with the same options given explicitly %s" % (rel(ra), rel(rb)))
+    if ra != m_merge or rb != m_expl:
+        return ("cli_model_mismatch", rec, "binary drops %s, model of run_dedupe's merge %s (explicit: %s)" % (rel(ra), rel(m_merge), rel(m_expl)))
+    return None
+
+
 def cli_layer(ctx, model_bin, fclones, nruns):
     fails = []
     for run in range(nruns):
-        rng = ctx.rng
-        tree = os.path.join(ctx.scratch, "cli%d" % run)
-        shutil.rmtree(tree, ignore_errors=True)
-        roots = ["r0", "r1"] + (["r2"] if rng.chance(1, 3) else [])
-        for r in roots:
-            os.makedirs(os.path.join(tree, r, "d"))
-        nclasses = 1 + rng.below(3)
-        files = []
-        for c in range(nclasses):
-            content = ("class%d-" % c) * (2 + c)
-            ncopies = 2 + rng.below(4)
-            firsts = []
-            for k in range(ncopies):
-                r = rng.choice(roots)
-                rel = os.path.join(r, rng.choice(["", "d"]), "f%d_%d%s" % (c, k, rng.choice([".a", ".b"])))
-                p = os.path.join(tree, rel)
-                if firsts and rng.chance(1, 4):
-                    os.link(rng.choice(firsts), p)
-                else:
-                    with open(p, "w") as f:
-                        f.write(content)
-                    firsts.append(p)
-                    mt = 1_600_000_000 + rng.below(4) * 100
-                    os.utime(p, (mt + 5, mt))
-                files.append(p)
-        with open(os.path.join(tree, roots[0], "uniq"), "w") as f:
-            f.write("only one copy")
-        isolate = rng.chance(1, 2)
-        hlinks = rng.chance(1, 2)
-        transform = rng.chance(1, 4)
-        mode = rng.below(5)             # 0: default rf-over, 1/2: --rf-over k, 3: --unique, 4: --rf-under 3
-        gopts = []
-        if isolate:
-            gopts.append("--isolate")
-        if hlinks:
-            gopts.append("-H")
-        if transform:
-            gopts += ["--transform", "head -c 7"]
-        rfo = None
-        if mode in (1, 2):
-            rfo = mode if not isolate else 1
-            gopts += ["--rf-over", str(rfo)]
-        elif mode == 3:
-            gopts.append("--unique")
-        elif mode == 4:
-            gopts += ["--rf-under", "2" if isolate else "3"]
-        prio = [rng.choice([4, 5, 10, 11, 1, 0])] if rng.chance(1, 2) else []
-        if prio and rng.chance(1, 2):
-            prio.append(rng.choice([4, 5, 10, 11]))
-            if tb_not_last(prio):
-                prio = prio[1:]
-        popts = []
-        for p in prio:
-            popts += ["--priority", PRIO_NAMES[p]]
-        env = dict(os.environ, RAYON_NUM_THREADS="2")
-        g = sh([fclones, "group"] + gopts + roots, tree, env=env)
-        if g.returncode != 0:
-            raise RuntimeError("fclones group failed: " + g.stderr[-500:])
-        report_h = g.stdout
-        lines = report_h.split("\n")
-        ci = [i for i, l in enumerate(lines) if l.startswith("# Command:")][0]
-        plain = list(lines)
-        plain[ci] = "# Command: fclones group " + " ".join(roots)      # a `group` command without the options
-        report_0 = "\n".join(plain)
-        a = sh([fclones, "remove", "--dry-run"] + popts, tree, stdin=report_h, env=env)
-        n_inh = 0 if mode in (3, 4) else (rfo if rfo is not None else 1)
-        xopts = ["-n", str(max(1, n_inh))]
-        if isolate:
-            for r in roots:
-                xopts += ["--isolate", os.path.join(tree, r)]
-        if hlinks:
-            xopts.append("-H")
-        if transform:
-            xopts.append("--no-check-size")
-        ts_line = [l for l in lines if l.startswith("# Timestamp:")][0][len("# Timestamp: "):]
-        b = sh([fclones, "remove", "--dry-run"] + popts + xopts, tree, stdin=report_0, env=env)
-
-        def rms(p):
-            if p.returncode != 0:
-                return "exit %d: %s" % (p.returncode, p.stderr[-300:])
-            return sorted(l[3:] for l in p.stdout.split("\n") if l.startswith("rm "))
-        ra, rb = rms(a), rms(b)
-        # model: partition (merge h c) and partition (explicit h c) group by group
-        groups, cur = [], None
-        for l in lines:
-            if l.startswith("#") or not l.strip():
-                continue
-            if not l.startswith("    "):
-                glen = int(l.split(",")[1].strip().split(" ")[0])
-                unit = l.split(",")[1].strip().split(" ")[1]
-                cur = {"glen": glen, "files": []}
-                assert unit == "B"
-                groups.append(cur)
-            else:
-                cur["files"].append(l[4:])
-        import datetime
-        ts = datetime.datetime.strptime(ts_line, "%Y-%m-%d %H:%M:%S.%f %z")
-        ts_ns = int(ts.timestamp() * 1000 + 0.5) * 10 ** 6
-        mlines = []
-        for gr in groups:
-            mem = []
-            for f in gr["files"]:
-                st = os.stat(f)
-                mem.append(" %s %d %d %d %d %d %d - %d,%d - - - - 1" % (
-                    comps_hex(f), st.st_dev, st.st_ino, st.st_size, 1, st.st_mtime_ns, st.st_atime_ns,
-                    st.st_ctime_ns // 10 ** 9, st.st_ctime_ns % 10 ** 9))
-            hf = "%d %d %s %d %d %d %s %d" % (transform, hlinks, rfo if rfo is not None else "-", mode == 4, mode == 3,
-                                             isolate, ",".join(comps_hex(os.path.join(tree, r)) for r in roots), ts_ns)
-            cfg = "rm - 0 0 - %s %d - 0,0,0,0" % (",".join(str(p) for p in prio) or "-", gr["glen"])
-            mlines.append("M " + hf + " # " + cfg + " |" + " ;".join(mem))
-        mout = core.run_lines(model_bin, mlines) if mlines else []
-        m_merge, m_expl = [], []
-        for gr, o in zip(groups, mout):
-            if o.startswith("EXN"):
-                raise RuntimeError("model: " + o)
-            pm, pe = o.split(" ## ")
-            for tgt, p in ((m_merge, pm), (m_expl, pe)):
-                if p.startswith("ok"):
-                    d = p.split("D=")[1]
-                    if d != "-":
-                        tgt.extend(gr["files"][int(i)] for i in d.split(","))
-        m_merge.sort()
-        m_expl.sort()
-        ctx.count()
-        ctx.distinct(("cli", tuple(gopts), tuple(prio), tuple(ra) if isinstance(ra, list) else ra), isinstance(ra, list) and len(ra) > 0)
-        ctx.bump("cli_group_options", " ".join(gopts) or "(none)")
-        ctx.bump("cli_removed_files", len(ra) if isinstance(ra, list) else -1)
-        rec = {"tree": tree, "group_cmd": ["fclones", "group"] + gopts + roots, "priority": [PRIO_NAMES[p] for p in prio],
-               "inherit_removed": ra, "explicit_opts": xopts, "explicit_removed": rb,
-               "model_merge_removed": m_merge, "model_explicit_removed": m_expl, "report": report_h[:3000]}
-        if ra != rb:
-            fails.append(("inherit_mismatch", rec, "`remove` with the options only in the report header drops %s, "
-                          "with the same options given explicitly %s" % (ra, rb)))
-        elif ra != m_merge or rb != m_expl:
-            fails.append(("cli_model_mismatch", rec, "binary drops %s, model of run_dedupe's merge %s (explicit: %s)" % (ra, m_merge, m_expl)))
-        else:
-            shutil.rmtree(tree, ignore_errors=True)
+        spec = gen_cli(ctx.rng)
+        f = run_cli(ctx, spec, model_bin, fclones, os.path.join(ctx.scratch, "cli"))
+        if f:
+            fails.append(f)
     return fails
 
 
@@ -716,7 +738,7 @@ def setup_dev2(ctx):
 
 
 def run(ctx):
-    ctx.rule = ("API level: generated duplicate groups of 2-12 report paths built as real files (hard-link sets, 1-3 roots, nested "
+    ctx.rule = ("API level: generated duplicate groups of 2-12 (every 40th: 24-40) report paths built as real files (hard-link sets, 1-3 roots, nested "
                 "isolated roots, symlinks to members, directories, fifos, missing and dangling members, changed lengths, a second "
                 "device, tied/distinct mtime/atime set with utimensat, btime/ctime from creation order read back with statx) x "
                 "DedupeConfig (n in {none,0..5}, priority lists of length 0-4 over all 12 priorities, keep/drop globs on names and "
@@ -740,6 +762,11 @@ def run(ctx):
     try:
         if ctx.replay:
             rp = json.load(open(ctx.replay))
+            if "cli_spec" in rp:
+                f = run_cli(ctx, rp["cli_spec"], model_bin, core.build_fclones(), os.path.join(ctx.scratch, "cli"))
+                if f:
+                    ctx.violation({"kind": f[0]}, f[2], f[1], found_input=(f[0] == "inherit_mismatch"))
+                return
             case = rp.get("minimised_case") or rp["case"]
             case = {k: v for k, v in case.items() if k != "_scratch"}
             res, mo = run_cases(ctx, [case], model_bin, scratch, dev2)
@@ -752,7 +779,7 @@ def run(ctx):
         size = (ncases + shards - 1) // shards
         for i in range(ncases):
             sd = os.path.join(scratch, "s%d" % (i // size))
-            cases.append(gen_case(ctx.rng, i, dev2 is not None, sd, small=(i % 5 == 0)))
+            cases.append(gen_case(ctx.rng, i, dev2 is not None, sd, small=(i % 5 == 0), large=(i % 40 == 7)))
         # directed K9 case (DESIGN App. C): a, b, c created in the order c, b, a; --priority top --priority newest
         cases.append({"id": ncases, "glen": 4, "op": "rm", "movedir": "mvdst", "n": None, "mlinks": False, "nosize": False,
                       "mbefore": None, "prio": [0, 2], "iso": [], "kn": [], "kp": [], "dn": [], "dp": [],
